@@ -39,6 +39,26 @@ def same(a, b):
     return a == b
 
 
+def close(a, b, rel=1e-9):
+    """same() under the symbolic engine (exact over the reals); in concrete replays, where the oracle and the code round
+    differently, equality up to a relative tolerance"""
+    if is_symbolic(a) or is_symbolic(b):
+        return same(a, b)
+    try:
+        if a == b:
+            return True
+        return abs(a - b) <= rel * max(abs(a), abs(b))
+    except Exception:
+        return same(a, b)
+
+
+def replay_tiers():
+    """tiers to look an obligation up in during a replay: the tier of the run that produced the witness first"""
+    import os
+    t = os.environ.get("SX_REPLAY_TIER", "quick")
+    return (t, "thorough" if t == "quick" else "quick")
+
+
 def lt(a, b):
     return a < b
 
